@@ -51,6 +51,10 @@ CLAIMS = {
     "C09": ("for every leaf kind x argument shape x enumerated key spelling (case variants, aliases, type names), from_spec(spec) equals the "
             "DSL-built condition (same class) and both filter identically, for every value of the symbolic arguments and probe leaf; "
             "and/or/xor spec lists nested to depth 2", "3 C09"),
+    "C10": ("for each part / path / path-string / rule spec form, the parsed object equals the API-built one and both select / "
+            "validate identically on symbolic documents, for every value of the symbolic condition arguments, primitive parts and "
+            "labels; the YAML text route (Schema.from_yaml, from_yaml_file) is outside the solver's claim and exercised on each "
+            "case's concrete witness only", "3 C10"),
     "C14": ("equality laws (reflexive/symmetric/transitive, rebuilt and commuted copies equal) and 'equal implies same "
             "behaviour' decided for every value of the differing atom (key, index, argument, label) and of the probe "
             "document's leaves, per term kind", "3 C14"),
